@@ -16,6 +16,12 @@ func init() {
 
 func propC16(c *Ctx) {
 	l := c.L
+	defer func() {
+		rdf := c.Rule("decode-fresh", "the decoders of source files build line tables in storage of their own: files of one decoded set never share a backing array (positions after an encode / decode round trip are the positions before it)", 10)
+		ruleDecodeFresh(c, rdf)
+		rtc := c.Rule("trace-complete", "the stack trace handed to the host has one entry per recorded position: its allocation length is len(Trace) itself", 1)
+		ruleTraceComplete(c, rtc)
+	}()
 	// ---- lit-pos -----------------------------------------------------------------------
 	rl := c.Rule("lit-pos", "every literal node of the parser's AST that is constructed outside the parser (replacement literals made by the optimizer and the compiler) sets its position field: an instruction compiled from a literal without a position has no source-map entry and errors are reported 'at -' or at the wrong line", 20)
 	posT := l.NamedType(parserPath, "Pos")
